@@ -159,11 +159,11 @@ def prep_calls(ctx):
     by_arity = collections.Counter()
     with open(cases_file, "w") as f:
         for l in r["out"].split("\n"):
-            if not l.startswith('<<"C", '):
+            if not l.startswith('"C['):
                 continue
-            t = json.loads(l.replace("<<", "[").replace(">>", "]"))
+            t = json.loads(tla_unquote(l)[1:])
             n += 1
-            c = {"id": n, "g": t[1], "n": t[2], "r": t[3], "a": [pool[i - 1] for i in t[4]], "k": [[kw[k - 1], pool[v - 1]] for k, v in t[5]]}
+            c = {"id": n, "g": t[0], "n": t[1], "r": t[2], "a": [pool[i - 1] for i in t[3]], "k": [[kw[k - 1], pool[v - 1]] for k, v in t[4]]}
             by_arity["kw" if c["k"] else "arity%d" % len(c["a"])] += 1
             f.write(json.dumps(c, separators=(",", ":")) + "\n")
     r["out"] = ""
@@ -176,7 +176,7 @@ def prep_calls(ctx):
 def exec_calls(ctx, pc, tally, notes):
     cases_file, n, meta, ncall, by_arity = pc["file"], pc["n"], pc["meta"], pc["ncall"], pc["by_arity"]
     pool = meta["pool"]
-    recs, summ = supervise(ctx, "call", cases_file, "calls", cpu_ms=250, stack_mb=16, batch=2000, sample=max(1, n // 6), lazy_gc=True)
+    recs, summ = supervise(ctx, "call", cases_file, "calls", cpu_ms=250, stack_mb=16, batch=2000, par=8, sample=max(1, n // 6), lazy_gc=True)
     if summ["ran"] != n or summ["idsum"] != n * (n + 1) // 2:
         raise vlib.MachineryError("coverage guard: %d call cases declared, harness ran %d (id checksum %d)" % (n, summ["ran"], summ["idsum"]))
     tally.add(n, summ)
@@ -236,40 +236,37 @@ def graph_edges(case):
 
 
 def cycle_from(case, root):
-    """kinds along a shortest data cycle reachable from root (canonical rotation), or None"""
+    """kinds along a data cycle reachable from root (canonical rotation, closed), or None.  Among
+    all simple cycles the one through kinds other than list/dict/tuple is preferred (those three
+    print and compare with a cycle guard of their own), then the shortest."""
     succ, kinds = graph_edges(case), case["kinds"]
-    seen, order, todo = {root}, [root], [root]
+    seen, todo = {root}, [root]
     while todo:
-        a = todo.pop(0)
+        a = todo.pop()
         for b in succ[a]:
             if b not in seen:
-                seen.add(b); order.append(b); todo.append(b)
-    best = None
-    for start in order:
-        # BFS for the shortest path start -> ... -> start
-        prev, q = {}, [start]
-        found = False
-        while q and not found:
-            a = q.pop(0)
-            for b in succ[a]:
-                if b == start:
-                    path = [a]
-                    while path[-1] != start:
-                        path.append(prev[path[-1]])
-                    path.reverse()
-                    found = True
-                    if best is None or len(path) < len(best):
-                        best = path
-                    break
-                if b not in prev and b != start:
-                    prev[b] = a; q.append(b)
-    if best is None:
+                seen.add(b); todo.append(b)
+    cycles = []
+
+    def walk(path):
+        for b in succ[path[-1]]:
+            if b == path[0]:
+                cycles.append(list(path))
+            elif b not in path and b > path[0]:      # each simple cycle once, from its smallest node
+                walk(path + [b])
+    for n in sorted(seen):
+        walk([n])
+    ORD = ["list", "dict", "tuple", "struct", "closure", "default", "bound"]
+
+    def canon(c):
+        ks = [kinds[n - 1] for n in c]
+        rots = [ks[i:] + ks[:i] for i in range(len(ks))]
+        pref = [r for r in rots if r[0] in ("list", "dict")] or rots
+        return min(pref, key=lambda r: [ORD.index(k) for k in r])
+    if not cycles:
         return None
-    ks = [kinds[n - 1] for n in best]
-    rots = [ks[i:] + ks[:i] for i in range(len(ks))]
-    pref = [r for r in rots if r[0] in ("list", "dict")] or rots
-    ks = min(pref, key=lambda r: [("list", "dict", "tuple", "struct").index(k) if k in ("list", "dict", "tuple", "struct") else 9 for k in r])
-    return ks + [ks[0]]
+    best = min((canon(c) for c in cycles), key=lambda ks: (0 if set(ks) - CORE else 1, len(ks), [ORD.index(k) for k in ks]))
+    return best + [best[0]]
 
 
 def graph_text(case):
@@ -312,7 +309,7 @@ def prep_graphs(ctx):
 
 def exec_graphs(ctx, g, tally, notes):
     n = g["n"]
-    recs, summ = supervise(ctx, "graph", g["file"], "graphs", cpu_ms=5000, stack_mb=1, batch=250, sample=max(1, n // 4), lazy_gc=True)
+    recs, summ = supervise(ctx, "graph", g["file"], "graphs", cpu_ms=5000, stack_mb=1, batch=250, par=6, sample=max(1, n // 4))
     if summ["ran"] != n or summ["idsum"] != n * (n + 1) // 2:
         raise vlib.MachineryError("coverage guard: %d graphs declared, harness ran %d" % (n, summ["ran"]))
     tally.add(n, summ)
@@ -367,7 +364,7 @@ def exec_graphs(ctx, g, tally, notes):
 
 # --------------------------------------------------------------------------- domain 3: sources
 def prep_src(ctx):
-    budget, mutmod = (2, 4) if ctx.quick else (3, 16)
+    budget, mutmod = (2, 4) if ctx.quick else (3, 32)
     cfg = "CONSTANTS\n  Budget = %d\n  MutMod = %d\nINIT Init\nNEXT Next\nINVARIANTS TypeOK Emit\nPOSTCONDITION Post\n" % (budget, mutmod)
     r = ctx.tlc_ok("C02MCSrc", "C02MCSrc.cfg", cfg_text=cfg, workers=8, heap="12g", timeout=3000,
                    env={"C02_TIER": ctx.tier, "C02_SEED": ctx.seed})
@@ -409,20 +406,25 @@ def prep_src(ctx):
 
 
 def exec_src(ctx, s, tally, notes):
-    parts = [("toks", s["toks"], s["nt"], dict(cpu_ms=10000, stack_mb=64, batch=1000, sample=max(1, s["n"] // 3), lazy_gc=True)),
-             ("shapes", s["shapes"], s["ns"], dict(cpu_ms=120000, stack_mb=0, batch=6, par=8, sample=0)),
-             ("deep", s["deep"], s["nd"], dict(cpu_ms=900000, stack_mb=0, batch=1, par=6, sample=0))]
+    parts = [("deep", s["deep"], s["nd"], dict(cpu_ms=900000, stack_mb=0, batch=1, par=6, sample=0)),
+             ("shapes", s["shapes"], s["ns"], dict(cpu_ms=120000, stack_mb=0, batch=6, par=6, sample=0)),
+             ("toks", s["toks"], s["nt"], dict(cpu_ms=10000, stack_mb=64, batch=1000, par=6, sample=max(1, s["n"] // 3)))]
     groups = collections.defaultdict(list)
-    samples, ran, evals = [], 0, 0
+    samples, evals = [], 0
     classes = collections.Counter()
-    for tag, f, cnt, kw in parts:
+    import concurrent.futures
+
+    def part(a):
+        tag, f, cnt, kw = a
+        return supervise(ctx, "src", f, "src-" + tag, timeout=6000, **kw) if cnt else ([], None)
+    with concurrent.futures.ThreadPoolExecutor(3) as ex:     # the long deep-data cases run beside the many small ones
+        results = list(ex.map(part, parts))
+    for (tag, f, cnt, kw), (recs, summ) in zip(parts, results):
         if cnt == 0:
             continue
-        recs, summ = supervise(ctx, "src", f, "src-" + tag, timeout=6000, **kw)
         if summ["ran"] != cnt:
             raise vlib.MachineryError("coverage guard: %d %s cases declared, harness ran %d" % (cnt, tag, summ["ran"]))
         tally.add(cnt, summ)
-        ran += summ["ran"]
         evals += summ["evaluations"]
         classes.update(summ["by_class"])
         ctx.log("sources/%s: ran %d cases, %d runs, classes %s, %d children" % (tag, summ["ran"], summ["evaluations"], dict(summ["by_class"]), summ["children"]))
@@ -458,7 +460,10 @@ def exec_src(ctx, s, tally, notes):
             return "program %r (budget %d steps)" % (c["head"].split("return v\n")[-1], c["steps"])
         return "shape %s at depth %d (%d bytes)" % (c["name"], c["d"], c["len"])
     # confirmation with the default 1 GB goroutine stack
-    confirm(ctx, "src", groups, what_of, sig_of, cpu_ms=900000, stack_mb=0, notes=notes, par=4)
+    small = {k: v for k, v in groups.items() if v[0]["case"]["kind"] == "toks"}
+    large = {k: v for k, v in groups.items() if v[0]["case"]["kind"] != "toks"}
+    confirm(ctx, "src", small, what_of, sig_of, cpu_ms=20000, stack_mb=0, notes=notes, par=3)
+    confirm(ctx, "src", large, what_of, sig_of, cpu_ms=900000, stack_mb=0, notes=notes, par=4)
     return {"derivation_budget": s["budget"], "mutate_every": s["mutmod"], "token_sequences": s["nt"], "valid_programs": s["nt"] - s["nm"],
             "mutants": s["nm"], "shape_cases": s["ns"], "deep_data_cases": s["nd"], "runs_declared": s["runs"], "runs": evals,
             "by_class": dict(classes)}, samples
@@ -492,8 +497,8 @@ def run(ctx):
         "a case that exceeds its CPU limit is re-run alone twice with 10 s / 20 s of CPU (sources: 15 / 30 min) before it counts as not returning; range(2^62) stands for values whose complete iteration is infeasible",
         "host values of the pool honour the Value/Iterable contracts (a host value that lies about Len is a host bug, not covered)",
         "arbitrary byte strings that are not derived from the grammar model or a declared shape are not explored (fuzzing is a different technique)"]
-    return ctx.finish(rule="TLC enumerates (1) target x argument forms: arity 0-2 exhaustive over the pool (quick: arity 2 over the 10-value sub-pool), arity 3 by a "
-                           "pairwise-covering array, keyword forms; (2) all constructions of value graphs with <= 3 nodes and <= 1 (quick) / 3 later edges x every "
+    return ctx.finish(rule="TLC enumerates (1) target x argument forms: arity 0-2 exhaustive over the pool (quick: arity 2 over the 10-value sub-pool), thorough also arity 3 by a "
+                           "pairwise-covering array over 23 values; keyword forms; (2) all constructions of value graphs with <= 3 nodes and <= 1 (quick) / 3 later edges x every "
                            "node x 17 operations; (3) all leftmost derivations of the compact grammar within the budget, single-token mutations of a seeded "
                            "subset, every stress shape at depths 2^k and at the 64 KiB limit, deep run-time data. distinct_nontrivial = cases that reach the code "
                            "under test (a call that gets past argument binding, a cyclic graph whose cycle is traversed, a source that executes >= 1 step)",
